@@ -134,33 +134,33 @@ func rang(left, right string) (string, error) {
 	if err == nil {
 		if rawMin == "'*'" {
 			if inclusive {
-				return fmt.Sprintf("%s <= %.2f", left, fMax), nil
+				return fmt.Sprintf("%s <= %s", left, formatFloat(rawMax, fMax)), nil
 			}
-			return fmt.Sprintf("%s < %.2f", left, fMax), nil
+			return fmt.Sprintf("%s < %s", left, formatFloat(rawMax, fMax)), nil
 		}
 
 		if rawMax == "'*'" {
 			if inclusive {
-				return fmt.Sprintf("%s >= %.2f", left, fMin), nil
+				return fmt.Sprintf("%s >= %s", left, formatFloat(rawMin, fMin)), nil
 			}
-			return fmt.Sprintf("%s > %.2f", left, fMin), nil
+			return fmt.Sprintf("%s > %s", left, formatFloat(rawMin, fMin)), nil
 		}
 
 		if inclusive {
-			return fmt.Sprintf("%s >= %.2f AND %s <= %.2f",
+			return fmt.Sprintf("%s >= %s AND %s <= %s",
 					left,
-					fMin,
+					formatFloat(rawMin, fMin),
 					left,
-					fMax,
+					formatFloat(rawMax, fMax),
 				),
 				nil
 		}
 
-		return fmt.Sprintf("%s > %.2f AND %s < %.2f",
+		return fmt.Sprintf("%s > %s AND %s < %s",
 				left,
-				fMin,
+				formatFloat(rawMin, fMin),
 				left,
-				fMax,
+				formatFloat(rawMax, fMax),
 			),
 			nil
 	}
@@ -274,33 +274,33 @@ func rangParam(left, right string, params []any) (string, error) {
 	if err == nil {
 		if rawMin == "'*'" {
 			if inclusive {
-				return fmt.Sprintf("%s <= %.2f", left, fMax), nil
+				return fmt.Sprintf("%s <= %s", left, formatFloat(rawMax, fMax)), nil
 			}
-			return fmt.Sprintf("%s < %.2f", left, fMax), nil
+			return fmt.Sprintf("%s < %s", left, formatFloat(rawMax, fMax)), nil
 		}
 
 		if rawMax == "'*'" {
 			if inclusive {
-				return fmt.Sprintf("%s >= %.2f", left, fMin), nil
+				return fmt.Sprintf("%s >= %s", left, formatFloat(rawMin, fMin)), nil
 			}
-			return fmt.Sprintf("%s > %.2f", left, fMin), nil
+			return fmt.Sprintf("%s > %s", left, formatFloat(rawMin, fMin)), nil
 		}
 
 		if inclusive {
-			return fmt.Sprintf("%s >= %.2f AND %s <= %.2f",
+			return fmt.Sprintf("%s >= %s AND %s <= %s",
 					left,
-					fMin,
+					formatFloat(rawMin, fMin),
 					left,
-					fMax,
+					formatFloat(rawMax, fMax),
 				),
 				nil
 		}
 
-		return fmt.Sprintf("%s > %.2f AND %s < %.2f",
+		return fmt.Sprintf("%s > %s AND %s < %s",
 				left,
-				fMin,
+				formatFloat(rawMin, fMin),
 				left,
-				fMax,
+				formatFloat(rawMax, fMax),
 			),
 			nil
 	}
@@ -342,6 +342,25 @@ func basicWrap(op expr.Operator) RenderFN {
 	return func(left, right string) (string, error) {
 		return fmt.Sprintf("%s(%s)", op, left), nil
 	}
+}
+
+// formatFloat renders a float boundary as its shortest exact decimal, padded to at least two
+// decimals, so a boundary is never rounded to a different number.
+func formatFloat(raw string, f float64) string {
+	// an integer boundary next to a float one is printed from its digits, a float64 can't hold
+	// every integer
+	if _, err := strconv.Atoi(raw); err == nil {
+		return raw + ".00"
+	}
+
+	s := strconv.FormatFloat(f, 'f', -1, 64)
+	switch i := strings.IndexByte(s, '.'); {
+	case i < 0:
+		return s + ".00"
+	case len(s)-i-1 == 1:
+		return s + "0"
+	}
+	return s
 }
 
 func toInts(rawMin, rawMax string) (iMin, iMax int, err error) {
